@@ -196,6 +196,20 @@ fn check_floats(t: &mut Tape, ctx: &Ctx) -> Outcome {
             return Outcome::fail("number-format", format!("{:?} (source {}): printed {:?}: {}", v, src_of(&v), got, e), format!("{}", src_of(&v)));
         }
         nt |= got.contains('E') || got.contains('.');
+        // the same number in the other float type, printed right behind it: each text is judged
+        // for its own type (what was printed last must not matter)
+        let twin = match &v {
+            Val::Sng(x) if x.is_finite() => Some(Val::Dbl(*x as f64)),
+            Val::Dbl(x) if x.is_finite() && ((*x as f32) as f64) == *x => Some(Val::Sng(*x as f32)),
+            _ => None,
+        };
+        if let Some(tw) = twin {
+            let tw = crate::sem::stored(&tw);
+            let got_t = print_value(&mut term, &tw);
+            if let Err(e) = judge(&got_t, &tw) {
+                return Outcome::fail("number-format", format!("{:?} printed right after {:?} (same number, other type): printed {:?}: {}", tw, v, got_t, e), format!("{} then {}", src_of(&v), src_of(&tw)));
+            }
+        }
         // sign symmetry: the decimal after the sign position is a function of the magnitude alone
         let mirrored = match &v {
             Val::Sng(x) if *x != 0.0 && !x.is_nan() => Some(Val::Sng(-x)),
@@ -343,6 +357,65 @@ fn check_layout(t: &mut Tape, ctx: &Ctx) -> Outcome {
     }
 }
 
+// ------------------------------------------------------------------ INKEY$ echoes nothing
+
+/// Polling the keyboard moves nothing on the screen: a program with `A$=INKEY$` between its PRINT
+/// statements lays out its output exactly like the same program with `A$="<the key>"`.
+fn check_inkey(t: &mut Tape, ctx: &Ctx) -> Outcome {
+    let key = *t.pick(&["", "K", "é", "\r"]);
+    let before = print_list(t);
+    let after = print_list(t);
+    let after2 = print_list(t);
+    let same_line = t.chance(1, 2);
+    let mk = |mid: &str| -> Vec<String> {
+        let b = render_stmts(&[before.clone()]);
+        let a = render_stmts(&[after.clone()]);
+        let a2 = render_stmts(&[after2.clone()]);
+        if same_line {
+            vec![format!("10 {}:{}:{}", b, mid, a), format!("20 {}", a2)]
+        } else {
+            vec![format!("10 {}", b), format!("20 {}", mid), format!("30 {}", a), format!("40 {}", a2)]
+        }
+    };
+    let with_inkey = mk("A$=INKEY$");
+    let lit = if key == "\r" { "A$=CHR$(13)".to_string() } else { format!("A$=\"{}\"", key) };
+    let with_let = mk(&lit);
+    let run = |lines: &[String], keys: &[&str]| -> Option<String> {
+        let mut term = Term::new();
+        let mut o = Opts::default();
+        o.keys = keys.iter().map(|k| k.to_string()).collect();
+        for l in lines {
+            term.line(l, &mut o);
+        }
+        if !term.take().is_empty() {
+            return None;
+        }
+        term.line("RUN", &mut o);
+        let evs = term.take();
+        if has_panic(&evs).is_some() {
+            return Some(flat(&evs));
+        }
+        term.line("PRINT \"<\";A$;\">\";POS(0)", &mut o);
+        Some(format!("{}{}", crate::drive::printed(&evs), flat(&term.take())))
+    };
+    let case = format!("{}\n(key handed to INKEY$: {:?}) versus\n{}", with_inkey.join("\n"), key, with_let.join("\n"));
+    crate::runner::note_case(&case);
+    match (run(&with_inkey, &[key]), run(&with_let, &[])) {
+        (Some(a), Some(b)) => {
+            if a != b {
+                return Outcome::fail("inkey-moved-the-cursor", format!("with INKEY$: {:?}\nwith the assignment: {:?}", a, b), case);
+            }
+            let o2 = Outcome::pass(true, hash_str(&case));
+            if ctx.render {
+                o2.with_case(case)
+            } else {
+                o2
+            }
+        }
+        _ => Outcome::discard("program entry printed something"),
+    }
+}
+
 // ------------------------------------------------------------------ the manual's examples
 
 const MANUAL: &[(&str, &str)] = &[
@@ -398,6 +471,7 @@ Non-trivial: an Integer that needs a sign or > 4 digits / a float printed with a
             Sub::items("all_integers", gen_ints, check_int, true),
             Sub::tape("floats", check_floats, 150_000, 8_000_000, 120),
             Sub::tape("layout_programs", check_layout, 60_000, 2_000_000, 500),
+            Sub::tape("inkey_keeps_the_column", check_inkey, 20_000, 500_000, 200),
         ],
     }
 }
